@@ -102,7 +102,15 @@ Plan gen_file(uint64_t seed, const GenOpts& g) {
       if (sc == 5 && rng.chance(0.35)) { rt.seti("crash_after", rng.range(0, 2)); rt.seti("stale", rng.range(0, 1)); rt.set("name", "st"); }
       if (sc == 5) rt.seti("keepprev", 1);
       p.ops.push_back(rt);
-      if (rng.chance(0.4)) { Op m = mk("A", "chgbounds"); m.seti("j", rng.range(0, 7)); m.set("lo", "0"); m.set("up", I(rng.range(0, 5))); p.ops.push_back(m); }
+      if (sc == 4 && rng.chance(0.6)) {
+        // the same object moves on to another basis (objective changed, re-solved), then reads its own file back
+        int nm = rng.range(0, 1), cx = rng.range(0, 1);
+        Op w = fop("A", "write"); w.set("kind", "bas"); w.set("name", "own" + I(k)); w.seti("names", nm); w.seti("cpx", cx); p.ops.push_back(w);
+        int nmod = rng.range(1, 2); for (int q = 0; q < nmod; q++) { Op m = mk("A", "mod"); m.set("kind", rng.pick({"chgobjvec", "chgobj", "sense"})); m.seti("s", (long)rng.below(1 << 30)); p.ops.push_back(m); }
+        if (rng.chance(0.8)) p.ops.push_back(mk("A", "optimize")); else if (rng.chance(0.5)) p.ops.push_back(mk("A", "clearbasis"));
+        Op r = fop("A", "read"); r.set("kind", "bas"); r.set("name", "own" + I(k)); r.seti("names", nm); p.ops.push_back(r);
+        if (rng.chance(0.5)) p.ops.push_back(mk("A", "optimize"));
+      }
     }
   } else {
     // C15 over files: save -> restart -> load reproduces the parameters
